@@ -249,7 +249,7 @@ Section ChildF.
   Lemma f_chdir L t path : H (stf L t) (sys_chdir path) (fun _ w' => stf L t w').
   Proof.
     apply f_keep. intros q. eapply hoare_conseq; [| | |apply h_chdir]; [intros w S; exact S| |intros ? X; exact X].
-    intros r w (c & S). eexists. split; [exact S|]. auto.
+    intros r w [[_ S]|[_ [S _]]]; eexists; (split; [exact S|]); auto.
   Qed.
   Lemma f_set_environ L t e : H (stf L t) (set_environ e) (fun _ w' => stf L t w').
   Proof.
@@ -606,4 +606,297 @@ Proof.
   rewrite Ef in Hin. apply elem_of_list_In, elem_of_map_to_list in Hin.
   unfold exec_fds in Hin. apply map_filter_lookup_Some in Hin. destruct Hin as [Hl Hc']. cbn in Hc'.
   exists d. auto.
+Qed.
+
+(* ================= the child, abstracted to its signal state, cwd and environment ================= *)
+(* [stg M D C E w]: current process has mask M, dispositions D, cwd C, environment E, no image *)
+Definition stg (M : list Z) (D : gmap Z disp) (C : str) (E : list str) (w : world) : Prop :=
+  exists q, st q w /\ pr_mask q = M /\ pr_disp q = D /\ pr_cwd q = C /\ pr_env q = E /\ pr_image q = None.
+
+Section ChildG.
+  Context {QS : world -> Prop}.
+  Notation H P m Q := (hoare P m Q QS).
+  Ltac hb := eapply hoare_bind.
+
+  (* calls that touch none of the four *)
+  Lemma g_keep {A} (m : MW A) M D C E :
+    (forall q, H (st q) m (fun r w' => exists q', st q' w' /\ pr_mask q' = pr_mask q /\ pr_disp q' = pr_disp q /\ pr_cwd q' = pr_cwd q
+                                                 /\ pr_env q' = pr_env q /\ pr_image q' = pr_image q)) ->
+    H (stg M D C E) m (fun _ w' => stg M D C E w').
+  Proof.
+    intros Hq w (q & S & A1 & A2 & A3 & A4 & A5). specialize (Hq q w S). destruct (m w); auto.
+    destruct Hq as (q' & S' & B1 & B2 & B3 & B4 & B5). exists q'. split; [exact S'|]. repeat split; congruence.
+  Qed.
+
+  Lemma g_getfd M D C E fd : H (stg M D C E) (sys_getfd fd) (fun _ w' => stg M D C E w').
+  Proof. apply g_keep. intros q. eapply hoare_conseq; [| | |apply h_getfd]; [intros w S; exact S| |intros ? X; exact X]. intros r w (S & _). exists q; split; [exact S|repeat split; reflexivity]. Qed.
+  Lemma g_close M D C E fd : H (stg M D C E) (sys_close fd) (fun _ w' => stg M D C E w').
+  Proof.
+    apply g_keep. intros q. eapply hoare_conseq; [| | |apply h_close]; [intros w S; exact S| |intros ? X; exact X].
+    intros r w X. destruct (pr_fds q !! fd); destruct X as [_ S]; eexists; (split; [exact S|]); repeat split; reflexivity.
+  Qed.
+  Lemma g_setfd M D C E fd v : H (stg M D C E) (sys_setfd fd v) (fun _ w' => stg M D C E w').
+  Proof.
+    apply g_keep. intros q. eapply hoare_conseq; [| | |apply h_setfd]; [intros w S; exact S| |intros ? X; exact X].
+    intros r w X. destruct (pr_fds q !! fd); destruct X as [_ S]; eexists; (split; [exact S|]); repeat split; reflexivity.
+  Qed.
+  Lemma g_dup2 M D C E a b : H (stg M D C E) (sys_dup2 a b) (fun _ w' => stg M D C E w').
+  Proof.
+    apply g_keep. intros q. eapply hoare_conseq; [| | |apply h_dup2]; [intros w S; exact S| |intros ? X; exact X].
+    intros r w X. destruct (pr_fds q !! a).
+    - destruct (b <? 0); [destruct X as (_ & S & _); exists q; split; [exact S|repeat split; reflexivity]|].
+      destruct (a =? b); destruct X as [_ S]; eexists; (split; [exact S|]); repeat split; reflexivity.
+    - destruct X as (_ & S & _). exists q. split; [exact S|repeat split; reflexivity].
+  Qed.
+  Lemma g_dupfd M D C E fd mn cx : H (stg M D C E) (sys_dupfd fd mn cx) (fun _ w' => stg M D C E w').
+  Proof.
+    apply g_keep. intros q. eapply hoare_conseq; [| | |apply h_dupfd]; [intros w S; exact S| |intros ? X; exact X].
+    intros r w X. destruct (pr_fds q !! fd).
+    - cbn zeta in X. destruct ((0 <=? pr_rlimit q) && _).
+      + destruct X as (_ & S & _). exists q. split; [exact S|repeat split; reflexivity].
+      + destruct X as [_ S]. eexists. split; [exact S|]. repeat split; reflexivity.
+    - destruct X as (_ & S & _). exists q. split; [exact S|repeat split; reflexivity].
+  Qed.
+  Lemma g_getrlimit M D C E : H (stg M D C E) sys_getrlimit (fun _ w' => stg M D C E w').
+  Proof. apply g_keep. intros q. eapply hoare_conseq; [| | |apply h_getrlimit]; [intros w S; exact S| |intros ? X; exact X]. intros r w [_ S]. exists q; split; [exact S|repeat split; reflexivity]. Qed.
+  Lemma g_sigemptyset M D C E : H (stg M D C E) sys_sigemptyset (fun _ w' => stg M D C E w').
+  Proof. apply g_keep. intros q. eapply hoare_conseq; [| | |apply h_sigemptyset]; [intros w S; exact S| |intros ? X; exact X]. intros r w [_ S]. exists q; split; [exact S|repeat split; reflexivity]. Qed.
+  Lemma g_write M D C E fd data : H (stg M D C E) (sys_write fd data) (fun _ w' => stg M D C E w').
+  Proof. apply g_keep. intros q. eapply hoare_conseq; [| | |apply h_write]; [intros w S; exact S| |intros ? X; exact X]. intros r w S. exists q; split; [exact S|repeat split; reflexivity]. Qed.
+  Lemma g_get_errno M D C E : H (stg M D C E) get_errno (fun _ w' => stg M D C E w').
+  Proof. intros w S. cbn. exact S. Qed.
+
+  (* calls that do *)
+  Lemma g_sigaction M D C E sg h : H (stg M D C E) (sys_sigaction sg h)
+    (fun r w' => if (sg <? 1) || (64 <? sg) || (sg =? SIGKILL) || (sg =? SIGSTOP)
+                 then r = -1 /\ stg M D C E w' /\ pr_errno (curp w') = EINVAL
+                 else r = 0 /\ stg M (disp_after sg h D) C E w').
+  Proof.
+    intros w (q & S & A1 & A2 & A3 & A4 & A5). pose proof (@h_sigaction QS q sg h w S) as Hg.
+    destruct (sys_sigaction sg h w); auto.
+    destruct ((sg <? 1) || (64 <? sg) || (sg =? SIGKILL) || (sg =? SIGSTOP)).
+    - destruct Hg as (Hr & S' & He). split; [exact Hr|]. split; [exists q; split; [exact S'|repeat split; auto]|exact He].
+    - destruct Hg as (Hr & S'). split; [exact Hr|]. eexists. split; [exact S'|]. cbn. rewrite A2. repeat split; auto.
+  Qed.
+  Lemma g_sigmask M D C E how ns : H (stg M D C E) (sys_sigmask how ns)
+    (fun r w' => exists M', stg M' D C E w' /\ (ns = Some [] -> how = SIG_SETMASK -> fst r = 0 /\ M' = [])).
+  Proof.
+    intros w (q & S & A1 & A2 & A3 & A4 & A5). pose proof (@h_sigmask QS q how ns w S) as Hg.
+    destruct (sys_sigmask how ns w); auto. destruct Hg as (m & S' & Hm). exists m. split; [|exact Hm].
+    eexists. split; [exact S'|]. cbn. repeat split; auto.
+  Qed.
+  Lemma g_chdir M D C E path : H (stg M D C E) (sys_chdir path)
+    (fun r w' => (r = 0 /\ stg M D (abs_path C path) E w') \/ (r = -1 /\ stg M D C E w' /\ 0 < pr_errno (curp w'))).
+  Proof.
+    intros w (q & S & A1 & A2 & A3 & A4 & A5). pose proof (@h_chdir QS q path w S) as Hg.
+    destruct (sys_chdir path w); auto. destruct Hg as [[Hr S']|(Hr & S' & He)].
+    - left. split; [exact Hr|]. eexists. split; [exact S'|]. cbn. rewrite A3. repeat split; auto.
+    - right. split; [exact Hr|]. split; [exists q; split; [exact S'|repeat split; auto]|exact He].
+  Qed.
+  Lemma g_set_environ M D C E e : H (stg M D C E) (set_environ e) (fun _ w' => stg M D C e w').
+  Proof.
+    intros w (q & S & A1 & A2 & A3 & A4 & A5). pose proof (@h_set_environ QS q e w S) as Hg.
+    destruct (set_environ e w); auto. eexists. split; [exact Hg|]. cbn. repeat split; auto.
+  Qed.
+End ChildG.
+
+Section ChildG2.
+  Context {QS : world -> Prop}.
+  Notation H P m Q := (hoare P m Q QS).
+  Ltac hb := eapply hoare_bind.
+
+  Lemma g_handle_cloexec M D C E h en : H (stg M D C E) (handle_cloexec h en) (fun _ w' => stg M D C E w').
+  Proof.
+    unfold handle_cloexec. hb; [apply g_getfd|]. intros r; cbv beta.
+    destruct (r <? 0).
+    - hb; [apply g_get_errno|]. intros e; cbv beta. apply hoare_ret. auto.
+    - hb; [apply g_setfd|]. intros r2; cbv beta. destruct (r2 <? 0).
+      + hb; [apply g_get_errno|]. intros e; cbv beta. apply hoare_ret. auto.
+      + apply hoare_ret. auto.
+  Qed.
+  Lemma g_handle_destroy M D C E h : H (stg M D C E) (handle_destroy h) (fun _ w' => stg M D C E w').
+  Proof.
+    unfold handle_destroy. destruct (h =? HANDLE_INVALID); [apply hoare_ret; auto|].
+    hb; [apply g_close|]. intros r; cbv beta. apply hoare_ret. auto.
+  Qed.
+  Lemma g_close_loop M D C E skip : forall l, H (stg M D C E) (mapM_ (close_one skip) l) (fun _ w' => stg M D C E w').
+  Proof.
+    induction l as [|i l IH]; cbn [mapM_]; [apply hoare_ret; auto|].
+    hb; [|intros u; cbv beta; apply IH].
+    unfold close_one. destruct (memZ i skip); [apply hoare_ret; auto|].
+    hb; [apply g_getfd|]. intros r; cbv beta. destruct (0 <=? r); [|apply hoare_ret; auto].
+    hb; [apply g_handle_destroy|]. intros r2; cbv beta. apply hoare_ret. auto.
+  Qed.
+  Lemma g_child_move_low M D C E : forall l n acc, H (stg M D C E) (child_move_low l n acc) (fun _ w' => stg M D C E w').
+  Proof.
+    induction l as [|[fd i] l IH]; intros n acc; cbn [child_move_low]; [apply hoare_ret; auto|].
+    destruct (negb (fd =? i) && (0 <=? fd) && (fd <? n)); [|apply IH].
+    hb; [apply g_dupfd|]. intros q; cbv beta. destruct (q <? 0); [|apply IH].
+    hb; [apply g_get_errno|]. intros e; cbv beta. apply hoare_ret. auto.
+  Qed.
+  Lemma g_child_redirect M D C E : forall l, H (stg M D C E) (child_redirect l) (fun _ w' => stg M D C E w').
+  Proof.
+    induction l as [|[fd i] l IH]; cbn [child_redirect]; [apply hoare_ret; auto|].
+    hb; [apply g_dup2|]. intros q; cbv beta. destruct (q <? 0).
+    - hb; [apply g_get_errno|]. intros e; cbv beta. apply hoare_ret. auto.
+    - hb; [destruct (negb (fd =? i)); apply g_handle_cloexec|]. intros q2; cbv beta.
+      destruct (q2 <? 0); [apply hoare_ret; auto|apply IH].
+  Qed.
+
+  (* the signal reset loop *)
+  Definition sig_invalid (s : Z) : bool := (s <? 1) || (64 <? s) || (s =? SIGKILL) || (s =? SIGSTOP).
+  Definition reset_step (D : gmap Z disp) (s : Z) : gmap Z disp := if sig_invalid s then D else delete s D.
+
+  Lemma g_reset_signals M C E : forall l D,
+    H (stg M D C E) (reset_signals l) (fun r w' => r = 0 /\ stg M (foldl reset_step D l) C E w').
+  Proof.
+    induction l as [|s l IH]; intros D; cbn [reset_signals foldl]; [apply hoare_ret; auto|].
+    hb; [apply g_sigaction|]. intros q; cbv beta. fold (sig_invalid s). unfold reset_step at 2.
+    destruct (sig_invalid s).
+    - apply hoare_pre. intros w (-> & S & He). intros w0 ->. unfold bind at 1. cbn [get_errno gets].
+      rewrite He. cbn. apply (IH D w S).
+    - apply hoare_pure. intros ->. hb; [apply g_get_errno|]. intros e; cbv beta. cbn [Z.ltb Z.compare andb].
+      unfold disp_after. cbn. apply IH.
+  Qed.
+
+  Lemma reset_fold_lookup : forall l D s, foldl reset_step D l !! s = if memZ s l && negb (sig_invalid s) then None else D !! s.
+  Proof.
+    induction l as [|i l IH]; intros D s; cbn [foldl]; [reflexivity|].
+    rewrite IH, memZ_cons. unfold reset_step.
+    destruct (Z.eqb_spec s i) as [->|Hne]; cbn [orb].
+    - destruct (sig_invalid i); cbn [negb].
+      + rewrite !andb_false_r. reflexivity.
+      + rewrite !andb_true_r. destruct (memZ i l); [reflexivity|]. apply lookup_delete.
+    - destruct (sig_invalid i); [reflexivity|].
+      destruct (memZ s l && negb (sig_invalid s)); [reflexivity|]. apply lookup_delete_ne. congruence.
+  Qed.
+End ChildG2.
+
+Section ChildOther.
+  (* what must hold at the moment of a successful exec: mask, dispositions, cwd, environment, argv *)
+  Variable GO : list Z -> gmap Z disp -> str -> list str -> list str -> Prop.
+  Definition QSO (w' : world) : Prop :=
+    forall im, pr_image (curp w') = Some im ->
+      exists M D, im_mask im = M /\ im_disp im = map_to_list (exec_disp D) /\ GO M D (im_cwd im) (im_env im) (im_argv im).
+  Notation H P m Q := (hoare P m Q QSO).
+  Ltac hb := eapply hoare_bind.
+
+  Lemma g_exit M D C E code : H (stg M D C E) (sys__exit code) (fun _ _ => False).
+  Proof.
+    intros w (q & S & A1 & A2 & A3 & A4 & A5). apply (@h_exit QSO q code); [|exact S].
+    intros w' Hw im Him. rewrite Hw, A5 in Him. discriminate.
+  Qed.
+  Lemma g_fail_path M D C E pwr r : H (stg M D C E) (sys_write pwr [RLit (encode_int (- r))] ;> sys__exit 1) (fun _ _ => False).
+  Proof. hb; [apply g_write|]. intros u; cbv beta. apply g_exit. Qed.
+  Lemma g_execvp M D C E prog av : GO M D C E av ->
+    H (stg M D C E) (sys_execvp prog av) (fun r w' => r = -1 /\ exists e, 0 < e /\ stg M D C E w' /\ pr_errno (curp w') = e).
+  Proof.
+    intros HG w (q & S & A1 & A2 & A3 & A4 & A5).
+    assert (Hx : hoare (st q) (sys_execvp prog av) (fun r w' => r = -1 /\ st q w' /\ 0 < pr_errno (curp w')) QSO).
+    { apply h_execvp. intros w' im Him _ Hm Hd Ha He Hc im' Him'. rewrite Him in Him'. injection Him' as <-.
+      exists (pr_mask q), (pr_disp q). split; [exact Hm|]. split; [exact Hd|]. rewrite Hc, He, Ha, A1, A2, A3, A4. exact HG. }
+    specialize (Hx w S). destruct (sys_execvp prog av w); auto. destruct Hx as (-> & S' & He). split; [reflexivity|].
+    eexists. split; [exact He|]. split; [exists q; split; [exact S'|repeat split; auto]|reflexivity].
+  Qed.
+
+  Theorem child_exec_other M D C E fprd fpwr sprd spwr av pg env o (k : MW unit) :
+    (forall D', (forall s, 1 <= s <= 31 -> s <> SIGKILL -> s <> SIGSTOP -> D' !! s = None) ->
+                GO [] D' (match po_wd o with Some d => abs_path C d | None => C end)
+                   (match env with Some (_, ss) => map snd ss | None => [] end) av) ->
+    H (stg M D C E)
+      (fork_child_part fprd fpwr [po_in o; po_out o; po_err o; sprd; spwr; po_exit o]
+                       (start_child_part sprd spwr (Some av) pg env o k))
+      (fun _ _ => False).
+  Proof.
+    intros HG. unfold fork_child_part.
+    assert (Hfp : forall M0 D0 C0 E0 pw r, H (stg M0 D0 C0 E0) (sys_write pw [RLit (encode_int (- r))] ;> sys__exit 1) (fun _ _ => False))
+      by (intros; apply g_fail_path).
+    assert (Herr : forall M0 D0 C0 E0, H (stg M0 D0 C0 E0) (let* r := (let* e := get_errno in ret (- e)) in sys_write fpwr [RLit (encode_int (- r))] ;> sys__exit 1) (fun _ _ => False)).
+    { intros. eapply hoare_bind with (R := fun _ w' => stg M0 D0 C0 E0 w').
+      - hb; [apply g_get_errno|]. intros e; cbv beta. apply hoare_ret. auto.
+      - intros r; cbv beta. apply Hfp. }
+    hb; [apply g_sigemptyset|]. intros r0; cbv beta. destruct (r0 <? 0); [apply Herr|].
+    hb; [apply g_reset_signals|]. intros r1; cbv beta. apply hoare_pure. intros ->. cbn [Z.ltb Z.compare].
+    set (D1 := foldl reset_step D (seqZ SIGNAL_LOOP_FROM (SIGNAL_LOOP_TO - SIGNAL_LOOP_FROM))).
+    assert (HD1 : forall s, 1 <= s <= 31 -> s <> SIGKILL -> s <> SIGSTOP -> D1 !! s = None).
+    { intros s Hs H9 H19. unfold D1. rewrite reset_fold_lookup.
+      unfold SIGNAL_LOOP_FROM, SIGNAL_LOOP_TO. rewrite memZ_seqZ by lia.
+      destruct (Z.leb_spec 0 s); [|lia]. destruct (Z.ltb_spec s (32 - 0)); [|lia]. cbn [andb].
+      unfold sig_invalid. destruct (Z.ltb_spec s 1); [lia|]. destruct (Z.ltb_spec 64 s); [lia|].
+      destruct (Z.eqb_spec s SIGKILL); [contradiction|]. destruct (Z.eqb_spec s SIGSTOP); [contradiction|]. reflexivity. }
+    hb; [apply g_sigemptyset|]. intros r2; cbv beta. destruct (r2 <? 0); [apply Herr|].
+    unfold signal_mask.
+    hb; [hb; [apply g_sigmask|]; intros [e old]; cbv beta; apply hoare_pre; intros w (M' & S & HM);
+         destruct (HM eq_refl eq_refl) as [He ->]; cbn [fst] in He; subst e;
+         apply hoare_ret; intros ? ->; instantiate (1 := fun r w' => fst r = 0 /\ stg [] D1 C E w'); cbn; auto|].
+    intros [r3 old]; cbv beta. apply hoare_pure. cbn [fst]. intros ->. cbn [Z.ltb Z.compare].
+    hb; [unfold get_max_fd; hb; [apply g_getrlimit|]; intros [rr soft]; cbv beta;
+         instantiate (1 := fun _ w' => stg [] D1 C E w');
+         destruct (rr <? 0); [hb; [apply g_get_errno|]; intros e; cbv beta; apply hoare_ret; auto|];
+         destruct ((soft <? 0) || (H_INT_MAX <? soft)); apply hoare_ret; auto|].
+    intros r4; cbv beta. destruct (r4 <? 0); [apply Hfp|].
+    destruct (MAX_FD_LIMIT <? r4); [apply Hfp|].
+    hb; [apply g_close_loop|]. intros u; cbv beta.
+    unfold pipe_destroy.
+    hb; [apply g_handle_destroy|]. intros u1; cbv beta.
+    hb; [apply g_handle_destroy|]. intros u2; cbv beta.
+    (* the child side of process_start *)
+    unfold start_child_part.
+    hb; [apply g_child_move_low|]. intros [r5 l1]; cbv beta. destruct (r5 <? 0); [apply Hfp|].
+    hb; [apply g_child_redirect|]. intros r6; cbv beta. destruct (r6 <? 0); [apply Hfp|].
+    hb; [apply g_handle_cloexec|]. intros r7; cbv beta. destruct (Z.ltb_spec r7 0) as [Hr7|Hr7]; [apply Hfp|].
+    set (C1 := match po_wd o with Some d => abs_path C d | None => C end).
+    eapply hoare_bind with (R := fun r w' => (r < 0 /\ exists C0, stg [] D1 C0 E w') \/ (0 <= r /\ stg [] D1 C1 E w')).
+    { unfold C1. destruct (po_wd o) as [d|].
+      - hb; [apply g_chdir|]. intros q; cbv beta. apply hoare_pre. intros w [[-> S]|(-> & S & He)].
+        + intros ? ->. cbn. right. split; [lia|exact S].
+        + intros ? ->. cbn. left. split; [lia|]. exists C. exact S.
+      - apply hoare_ret. intros w S. right. split; [lia|exact S]. }
+    intros r8; cbv beta. apply hoare_pre. intros w [[Hneg (C0 & S)]|[Hpos S]].
+    { destruct (Z.ltb_spec r8 0); [|lia].
+      eapply hoare_conseq with (P := stg [] D1 C0 E); [intros ? ->; exact S|intros a w' X; exact X|intros w' X; exact X|]. apply Hfp. }
+    destruct (Z.ltb_spec r8 0); [lia|].
+    eapply hoare_conseq with (P := stg [] D1 C1 E); [intros ? ->; exact S|intros a w' X; exact X|intros w' X; exact X|].
+    clear w S.
+    hb; [apply g_set_environ|]. intros u3; cbv beta.
+    set (E1 := match env with Some (_, ss) => map snd ss | None => [] end).
+    eapply hoare_bind with (R := fun r w' => r < 0 /\ stg [] D1 C1 E1 w').
+    { hb; [apply (g_execvp [] D1 C1 E1 _ av (HG D1 HD1))|]. intros q; cbv beta.
+      apply hoare_pre. intros w (-> & e & He & S & Hee). intros ? ->. cbn. rewrite Hee. split; [lia|exact S]. }
+    intros r9; cbv beta. apply hoare_pure. intros Hneg. destruct (Z.ltb_spec r9 0); [apply Hfp|lia].
+  Qed.
+End ChildOther.
+
+(* C12 (child clean) and C03 (launch fidelity), child side, for every parent signal state:
+   whatever mask and dispositions the forked child inherited, if it reaches a successful exec the
+   program starts with an empty mask, no disposition entry for any standard signal 1..31
+   (other than the unsettable SIGKILL / SIGSTOP), exactly the argv passed, exactly the
+   environment list handed to the child, and the requested working directory (resolved against
+   the cwd at fork) or the cwd at fork when none was requested. *)
+Theorem child_image_signals_and_launch M D C E fprd fpwr sprd spwr av pg env o (k : MW unit) w :
+  stg M D C E w ->
+  match fork_child_part fprd fpwr [po_in o; po_out o; po_err o; sprd; spwr; po_exit o]
+                        (start_child_part sprd spwr (Some av) pg env o k) w with
+  | Ret _ _ => False
+  | Stop w' => forall im, pr_image (curp w') = Some im ->
+                 im_mask im = [] /\
+                 (forall s x, 1 <= s <= 31 -> s <> SIGKILL -> s <> SIGSTOP -> ~ In (s, x) (im_disp im)) /\
+                 im_argv im = av /\
+                 im_env im = (match env with Some (_, ss) => map snd ss | None => [] end) /\
+                 im_cwd im = (match po_wd o with Some d => abs_path C d | None => C end)
+  | Hang _ | Crash _ _ => True
+  end.
+Proof.
+  intros S.
+  pose proof (child_exec_other
+    (fun M' D' C' E' av' => M' = [] /\ (forall s, 1 <= s <= 31 -> s <> SIGKILL -> s <> SIGSTOP -> D' !! s = None)
+                            /\ C' = (match po_wd o with Some d => abs_path C d | None => C end)
+                            /\ E' = (match env with Some (_, ss) => map snd ss | None => [] end) /\ av' = av)
+    M D C E fprd fpwr sprd spwr av pg env o k) as Hc.
+  specialize (Hc ltac:(intros D' HD'; repeat split; auto) w S).
+  destruct (fork_child_part _ _ _ _ w) as [a w'|w'|w'|y w']; auto.
+  intros im Him. destruct (Hc im Him) as (M' & D' & Hm & Hd & -> & HD & Hcw & Hen & Hav).
+  split; [exact Hm|]. split; [|split; [exact Hav|split; [exact Hen|exact Hcw]]].
+  intros s x Hs H9 H19 Hin. rewrite Hd in Hin. apply elem_of_list_In, elem_of_map_to_list in Hin.
+  unfold exec_disp in Hin. apply map_filter_lookup_Some in Hin. destruct Hin as [Hl _]. rewrite (HD s Hs H9 H19) in Hl. discriminate.
 Qed.
